@@ -60,6 +60,9 @@ type script struct {
 	// rewriteReq: the handler rewrites attributes of the request it was handed (peer address
 	// from a trusted header, Host, credential headers) - its own business, nobody else's
 	rewriteReq bool
+	// viaCopy: the handler produces its body with io.Copy from a plain reader (file servers,
+	// http.ServeContent, proxies), which uses the writer's ReadFrom when it has one, never Write
+	viaCopy bool
 }
 
 type outcome struct {
@@ -138,7 +141,11 @@ func (s *script) handler(o *outcome) http.Handler {
 			w.WriteHeader(s.status)
 		}
 		for _, b := range s.writes {
-			_, _ = w.Write(b)
+			if s.viaCopy {
+				_, _ = io.Copy(w, onlyReader{bytes.NewReader(b)})
+			} else {
+				_, _ = w.Write(b)
+			}
 			if s.flush && s.flushRC {
 				o.flushAttempts++
 				if err := http.NewResponseController(w).Flush(); err != nil {
@@ -183,6 +190,7 @@ func genScript(t *rapid.T) *script {
 	s.cancelAtEnd = rapid.IntRange(0, 5).Draw(t, "contextDoneWhenHandlerReturns") == 0
 	s.rewriteReq = rapid.IntRange(0, 3).Draw(t, "handlerRewritesRequest") == 0
 	s.flushRC = rapid.Bool().Draw(t, "flushThroughResponseController")
+	s.viaCopy = rapid.IntRange(0, 3).Draw(t, "bodyThroughIoCopy") == 0
 	s.emptyFirst = s.info == 0 && rapid.IntRange(0, 7).Draw(t, "emptyFirstWrite") == 0
 	if len(s.writes) > 0 && rapid.IntRange(0, 3).Draw(t, "trailers") == 0 {
 		for i := rapid.IntRange(1, 2).Draw(t, "ntrailers"); i > 0; i-- {
@@ -197,8 +205,14 @@ func (s *script) String() string {
 	for _, w := range s.writes {
 		n += len(w)
 	}
-	return fmt.Sprintf("{info:%d status:%d headers:%v body:%dB/%dwrites flush:%v hijack:%v pre101:%v pre200:%v trailers:%v emptyFirstWrite:%v}", s.info, s.status, s.headers, n, len(s.writes), s.flush, s.hijack, s.pre101, s.pre200, s.trailers, s.emptyFirst)
+	return fmt.Sprintf("{info:%d status:%d headers:%v body:%dB/%dwrites flush:%v hijack:%v pre101:%v pre200:%v trailers:%v emptyFirstWrite:%v ioCopy:%v}", s.info, s.status, s.headers, n, len(s.writes), s.flush, s.hijack, s.pre101, s.pre200, s.trailers, s.emptyFirst, s.viaCopy)
 }
+
+// onlyReader hides every method of the reader but Read (no WriteTo), so io.Copy turns to the
+// destination's ReadFrom.
+type onlyReader struct{ r io.Reader }
+
+func (o onlyReader) Read(p []byte) (int, error) { return o.r.Read(p) }
 
 var layerKinds = []string{"stream", "trace", "connlimit", "ratelimit", "cbreaker", "roundrobin", "roundrobin+sticky", "rebalancer", "buffer"}
 
